@@ -525,3 +525,11 @@ PROPS["C03"]["drivers"]["quick"].append(cl_full("c03", ["--maxruns", "150"], 1))
 PROPS["C03"]["drivers"]["thorough"].append(cl_full("c03", ["--maxruns", "600"], 2))
 PROPS["C05"]["drivers"]["quick"].append(cl_full("c05", ["--maxruns", "24"], 1))
 PROPS["C05"]["drivers"]["thorough"].append(cl_full("c05", ["--maxruns", "80"], 3))
+
+# C11: the exhaustive case table on the specification, and the same table on the real code
+PROPS["C11"]["mc"] = [{"module": "MC_C11", "cfg": "MC_C11.cfg", "workers": 4, "timeout": 900,
+                       "what": "exhaustive case table: record absent/Alive/Suspect/Down x incarnation below/equal/above x generation "
+                               "older/same/newer x token current/stale x notify_down_members x connected/idle/defunct x last member or not; "
+                               "the statement's iff on HandleTimer's result; Down final under every later update / forget-timer"}] + PROPS["C11"]["mc"]
+for _t in ("quick", "thorough"):
+    PROPS["C11"]["drivers"][_t].append({"args": ["c11"], "shards": 1, "seed_fixed": 1})
